@@ -687,6 +687,28 @@ def prim_on(prim, x, tol):
     return u is not None and u <= Fr(tol) ** 2
 
 
+def _known_class(c, r):
+    """Input class of a recorded C10 / C11 finding for this call (used only to SKIP metamorphic
+    comparisons: an asymmetry inside such a class is a consequence of the recorded optimality /
+    feasibility defect, which C10 / C11 judge with their own, tighter predicates).  C11's predicates
+    additionally require that ITS model run reproduced the result (`_model_agrees`), a flag only the
+    C11 check computes; here the class and the defect's signature in the result decide."""
+    r2 = dict(r) if isinstance(r, dict) else r
+    if isinstance(r2, dict):
+        r2["_model_agrees"] = True
+    k = c11.known_id(c, r2) or c10.known_id(c, r2)
+    if k:
+        return k
+    fn = c["fn"]
+    if fn == "line_segment_to_circle" and isinstance(r, dict) and r.get("on_line") is False:
+        return "F10"      # clamp arm of the non-convex circle distance (C11 decides with the closer pair it finds)
+    if fn == "disk_to_disk":
+        cls = c11.disk_class(c)
+        if cls == "general":
+            return "F11"  # alternating projection with early stop: order dependent by construction
+    return None
+
+
 def judge_prim(scene, cases, results, T):
     fails = []
     fn = scene["fn"]
@@ -695,7 +717,7 @@ def judge_prim(scene, cases, results, T):
     if any("exc" in r for r in results):
         T.hit("prim_skip_raised")
         return fails
-    known = [c11.known_id(c, r) or c10.known_id(c, r) for c, r in zip(cases, results)]
+    known = [_known_class(c, r) for c, r in zip(cases, results)]
     if any(known):
         for kk in known:
             if kk:
